@@ -1,0 +1,75 @@
+#ifdef PSEUDOENGINE2_VERIF
+#include "pch.h"
+#include <cstdlib>
+#include <iostream>
+
+#include "verif.h"
+#include "lexer/tokens.h"
+#include "psc/error.h"
+#include "psc/scope/context.h"
+
+namespace {
+    unsigned long limitOf(const char *name) {
+        const char *v = std::getenv(name);
+        if (v == nullptr || v[0] == '\0') return 0; // unlimited
+        return std::strtoul(v, nullptr, 10);
+    }
+
+    unsigned long steps = 0, depth = 0, cells = 0;
+    const Token budgetToken{TokenType::FUNCTION, 0, 0};
+}
+
+void PE2Verif::tick(const Token &token, PSC::Context &ctx) {
+    static const unsigned long maxSteps = limitOf("PE2_VERIF_MAX_STEPS");
+    if (maxSteps != 0 && ++steps > maxSteps)
+        throw PSC::RuntimeError(token, ctx, "Execution budget exceeded: steps");
+}
+
+void PE2Verif::allocCells(unsigned long n, PSC::Context &ctx) {
+    static const unsigned long maxCells = limitOf("PE2_VERIF_MAX_CELLS");
+    if (maxCells == 0) return;
+    if (n > maxCells || cells + n > maxCells)
+        throw PSC::RuntimeError(budgetToken, ctx, "Execution budget exceeded: array cells");
+    cells += n;
+}
+
+void PE2Verif::checkStringLength(std::size_t n, const Token &token, PSC::Context &ctx) {
+    static const unsigned long maxLen = limitOf("PE2_VERIF_MAX_STRLEN");
+    if (maxLen != 0 && n > maxLen)
+        throw PSC::RuntimeError(token, ctx, "Execution budget exceeded: string length");
+}
+
+PE2Verif::CallGuard::CallGuard(const Token &token, PSC::Context &ctx) {
+    static const unsigned long maxDepth = limitOf("PE2_VERIF_MAX_DEPTH");
+    if (maxDepth != 0 && depth + 1 > maxDepth)
+        throw PSC::RuntimeError(token, ctx, "Execution budget exceeded: call depth");
+    depth++;
+}
+
+PE2Verif::CallGuard::~CallGuard() {
+    depth--;
+}
+
+bool PE2Verif::dumpTokensRequested() {
+    const char *v = std::getenv("PE2_VERIF_DUMP_TOKENS");
+    return v != nullptr && v[0] == '1';
+}
+
+void PE2Verif::dumpTokens(const std::vector<Token*> &tokens) {
+    // one token per line: TYPE line column hex(value)
+    static const char *hex = "0123456789abcdef";
+    for (const Token *t : tokens) {
+        std::cout << t->type << ' ' << t->line << ' ' << t->column << ' ';
+        for (unsigned char c : t->value) std::cout << hex[c >> 4] << hex[c & 15];
+        std::cout << '\n';
+    }
+    std::cout.flush();
+}
+
+bool PE2Verif::seedRandom() {
+    const char *v = std::getenv("PE2_VERIF_SRAND");
+    if (v == nullptr || v[0] == '\0') return false;
+    srand((unsigned int) std::strtoul(v, nullptr, 10));
+    return true;
+}
+#endif
